@@ -85,6 +85,10 @@ def run_sem(pid, tier, seed, replay, gen_fn=None, extra_cov=None, t_start=None):
         if failed:
             doc, rc = recorded[c["id"]]
             rc = dict(rc)
+            te = [x for x in rc["calls"] if x.get("outcome") == "toolerr"]
+            if te:
+                # the harness itself could not set the call up: never a statement about the code under test
+                raise ToolError("harness could not set up a call of case %s: %s" % (c["id"], te[0].get("msg")))
             rc["net_model"] = netmodel[c["net"]]["model"]
             k = known_match(pid, rc, failed)
             if k:
